@@ -377,6 +377,14 @@ class Impl(object):
         self.e2e = any(c[1] == "e2e" for c in cfg)
         self.kinds = kinds or [c[2] for c in cfg if c[1] == "index"]
         self.twocat = any(c[1] == "twocat" for c in cfg)
+        # keyword indexes are a subclass overriding the documented `normalize()` hook (case-insensitive
+        # keywords): documents and query constants are spelled K<n>, the index stores k<n> (seeded C05_H)
+        self.normkw = any(c[1] == "normkw" for c in cfg)
+        if self.normkw:
+            class NormKeywordIndex(KeywordIndex):
+                def normalize(self, seq):
+                    return [w.lower() if isinstance(w, str) else w for w in seq]
+            KeywordIndex = NormKeywordIndex
         self.cats = [Catalog(family=fam), Catalog(family=fam)] if self.twocat else [Catalog(family=fam)]
         self.cat = self.cats[0]
         self.idx = []
@@ -409,6 +417,8 @@ class Impl(object):
             return " ".join(WORDS[t] for t in toks)
         if k == "facet" and self.e2e:
             return [FACET_PATHS[t] for t in toks]
+        if k == "keyword" and getattr(self, "normkw", False):
+            return ["K%d" % t for t in toks]
         return ["k%d" % t for t in toks]
 
     def xbuild(self, t, names):
@@ -456,6 +466,8 @@ class Impl(object):
             return QUERIES[x] if self.e2e else WORDS[x]
         if k == "facet" and self.e2e:
             return FACET_NAMES[x]
+        if k == "keyword" and getattr(self, "normkw", False):
+            return "K%d" % x
         return "k%d" % x
 
     def build(self, t):
@@ -645,7 +657,8 @@ def xmatch(kind, docval, tok):
     field index is a closed range with None = open end, a list constant is any-of)"""
     r = xresolve(tok)
     if kind != "field":
-        return r[0] == "v" and "k%d" % r[1] in docval      # keyword values are the strings k<n> (Impl.value)
+        # keyword values are the strings k<n> (Impl.value; K<n> under a case-normalising subclass)
+        return r[0] == "v" and "k%d" % r[1] in [w.lower() for w in docval]
     if r[0] == "v":
         return docval == r[1]
     if r[0] == "r":
